@@ -111,7 +111,8 @@ func runC18(run *Run, replay string) {
 	if run.Thorough {
 		bases, posN = 400, 60
 	}
-	inserts := []string{"\n", "# comment\n", "// c\n", "# コメント é\n", "\n\n# two\n", "// é\n\n"}
+	inserts := []string{"\n", "# comment\n", "// c\n", "# コメント é\n", "\n\n# two\n", "// é\n\n",
+		strings.Repeat("# a longer block of comment lines\n", 9), strings.Repeat("\n", 40) + "// é\n"}
 	for bi := 0; bi < bases; bi++ {
 		r := rand.New(rand.NewSource(subSeed(run.Res.Seed, bi)))
 		var sc *Scenario
@@ -121,7 +122,12 @@ func runC18(run *Run, replay string) {
 				// a second file with the same text: declarations whose positions coincide with those of
 				// the edited file (only the file name tells them apart)
 				w := newWorld()
-				pd := w.AddPath("root", tfSchema(), map[string]string{"main.tf": string(sc.Src), "other.tf": string(sc.Src)}, sc.Main.Ctx.Functions)
+				other := string(sc.Src)
+				if bi%4 == 0 && bi%8 != 0 || bi%16 == 8 {
+					// ... or with other declarations, whose byte ranges overlap those of the edited file at random
+					other = genTf(r).Src
+				}
+				pd := w.AddPath("root", tfSchema(), map[string]string{"main.tf": string(sc.Src), "other.tf": other}, sc.Main.Ctx.Functions)
 				sc = &Scenario{W: w, Main: pd, File: "main.tf", Src: sc.Src, Kind: "tf"}
 			}
 		} else {
@@ -187,6 +193,14 @@ func runC18(run *Run, replay string) {
 		}
 		sc.W.Collect()
 		offs := append(cursorOffsets(r, sc.Src, false, posN), typedAt...)
+		// the places where references are written: go-to-definition, hover and completion are asked there
+		nrefs := 0
+		for _, o := range sc.Main.Ctx.ReferenceOrigins {
+			if o.OriginRange().Filename == sc.File && nrefs < 16 {
+				offs = append(offs, o.OriginRange().Start.Byte)
+				nrefs++
+			}
+		}
 		if len(typedAt) > 0 {
 			// also insert right before the line being typed
 			points = append([]int{typedAt[0]}, points...)
@@ -229,7 +243,9 @@ func runC18(run *Run, replay string) {
 				}
 				if want != got {
 					key := "C18/result-changed/" + strings.SplitN(q1.Name, "(", 2)[0]
-					if q1.Pos != nil && q2.Pos != nil && crossFileSelfAt(sc.Main, sc.File, *q1.Pos) != crossFileSelfAt(s2.Main, s2.File, *q2.Pos) {
+					qn := strings.SplitN(q1.Name, "(", 2)[0]
+					if q1.Pos != nil && q2.Pos != nil && (qn == "CompletionAtPos" || qn == "HoverAtPos") && strings.Contains(want+got, "\"self") &&
+						(crossFileSelfAt(sc.Main, sc.File, *q1.Pos) || crossFileSelfAt(s2.Main, s2.File, *q2.Pos)) {
 						// Target.Address(ctx, pos) decides between "self" and the absolute address by the byte range the
 						// declaration is addressable from, without looking at the file: a declaration of ANOTHER file
 						// whose byte range happens to contain the cursor is labelled self.*
